@@ -39,7 +39,8 @@ def isSpace (c : Char) : Bool := c = ' ' || (9 ≤ c.toNat && c.toNat ≤ 13)
 /-- `mpz_set_str(…, s, 62)`: `none` is the error return (-1).  Leading white space, an optional
     `-`, then at least one digit; white space between later digits is ignored. -/
 def parse62 (s : String) : Option Int :=
-  let cs := s.toList.dropWhile isSpace
+  -- the text reaches GMP through `c_str()`: everything from the first NUL on is invisible
+  let cs := (s.toList.takeWhile (· ≠ Char.ofNat 0)).dropWhile isSpace
   let (neg, cs) := match cs with
     | '-' :: rest => (true, rest)
     | _ => (false, cs)
@@ -83,7 +84,8 @@ def W64 : Nat := 2 ^ 64
     Leading white space and a sign are accepted, an empty digit string converts to 0 only when
     nothing at all was consumed (then `ec = s`, so the whole string must be empty),
     overflow saturates, a minus sign negates modulo 2^64. -/
-def strtoulFull (cs : List Char) : Option Nat :=
+def strtoulFull (cs0 : List Char) : Option Nat :=
+  let cs := cs0.takeWhile (· ≠ Char.ofNat 0)   -- `c_str()`: the text ends at the first NUL
   let body := cs.dropWhile isSpace
   let (neg, ds) := match body with
     | '-' :: rest => (true, rest)
